@@ -20,9 +20,9 @@ PROP = {
                   "body a function of the id; delete targets are tag terms and id ranges. No axioms (Print Assumptions: closed under the global context).",
     "technique": "Coq proof (simulation invariant over the op list: opstamps strictly increasing, cursor invariants, effective-content multiset) + correspondence cases evaluated by vm_compute",
     "rule": "cases: histories (<= 35 ops quick, <= 58 thorough) of add / delete_term / delete_query / run / delete_all / commit(+payload via prepare_commit) / rollback / abort / drop+reopen / wait_merging_threads, "
-            "1..8 threads, NoMergePolicy / LogMergePolicy(min 2 segments) + explicit merges, searchers loaded WITHOUT commit after merges and after the pattern restore; delete; merge; non-trivial = at least one delete matching documents on both sides of a commit; distinct by hash of the Gallina term",
+            "1..8 threads, NoMergePolicy / LogMergePolicy(min 2 segments) + explicit merges, searchers loaded WITHOUT commit after merges and after the pattern restore; delete; merge; plus histories of bulky documents (900..2200 unique tokens each) whose uncommitted work overflows the 15 MB budget 1.4..2.6 times per thread and transaction (single adds, run() batches, deletes in between), compared with the model under the schedule inferred from the observed segment sizes and opstamps; non-trivial = at least one delete matching documents on both sides of a commit; distinct by hash of the Gallina term",
     "trusted_base": COMMON_TB + ["real thread interleavings are represented by the schedule oracle of the model (proved for all oracles); the harness compares schedule-independent observations when N > 1",
-                                 "memory-budget cuts are oracle events in the model; the harness cannot force them without a hook (segments are cut at commits)"],
+                                 "memory-budget cuts are oracle events in the model (the arena arithmetic is not modelled); the harness reaches them with bulky documents and infers the cut positions from the observed segments"],
     "assumptions": ["single producer thread (IndexWriter calls are issued sequentially)", "fewer than 2^64 operations (opstamps do not wrap)",
                     "dropping a writer discards its uncommitted operations (modelled as a rollback)"],
     "harness_timeout": 1500,
